@@ -38,6 +38,7 @@ type Program struct {
 	rtypeMethods       methodSet
 	runtimeErrorString types.Type
 	once               sync.Once
+	snapMu             sync.Mutex
 	Addr               map[string][]byte // bech32 string -> bytes (universe table)
 	AddrRev            map[string]string // string(bytes)+"|"+hrp kind -> bech32
 }
@@ -105,6 +106,124 @@ func isErrorType(t types.Type) bool { return types.Identical(t, universeError) }
 // opaqueErr builds an error value of the harness type nd.OpaqueErr{Msg}.
 func (i *interpreter) opaqueErr(msg string) value {
 	return iface{t: i.P.errType, v: structure{msg}}
+}
+
+// snapshot of the globals after the package initialisers ran (per engine); each path
+// starts from a pointer-preserving deep copy instead of re-running the initialisers.
+type globalSnap struct {
+	vals map[*ssa.Global]value
+}
+
+func (i *interpreter) takeSnapshot() *globalSnap {
+	gs := &globalSnap{vals: map[*ssa.Global]value{}}
+	initSet := map[string]bool{}
+	for _, ip := range i.P.InitPaths {
+		initSet[ip] = true
+	}
+	for g, cell := range i.globals {
+		// only packages whose initialisers ran have non-zero globals
+		if g.Pkg != nil && initSet[g.Pkg.Pkg.Path()] {
+			gs.vals[g] = *cell
+		}
+	}
+	return gs
+}
+
+func (i *interpreter) restoreSnapshotFrom(eng *Engine) {
+	gs := eng.snap.(*globalSnap)
+	memo := map[*value]*value{}
+	// global cells themselves can be pointed to (address of a package variable)
+	for g := range gs.vals {
+		if old, ok := eng.snapCells[g]; ok {
+			memo[old] = i.globals[g]
+		}
+	}
+	for g, v := range gs.vals {
+		*i.globals[g] = copyDeep(v, memo)
+	}
+}
+
+func copyDeep(v value, memo map[*value]*value) value {
+	switch x := v.(type) {
+	case *value:
+		if x == nil {
+			return x
+		}
+		if n, ok := memo[x]; ok {
+			return n
+		}
+		n := new(value)
+		memo[x] = n
+		*n = copyDeep(*x, memo)
+		return n
+	case []value:
+		if x == nil {
+			return x
+		}
+		out := make([]value, len(x), cap(x))
+		for k, e := range x {
+			out[k] = copyDeep(e, memo)
+		}
+		return out
+	case structure:
+		out := make(structure, len(x))
+		for k, e := range x {
+			out[k] = copyDeep(e, memo)
+		}
+		return out
+	case array:
+		out := make(array, len(x))
+		for k, e := range x {
+			out[k] = copyDeep(e, memo)
+		}
+		return out
+	case tuple:
+		out := make(tuple, len(x))
+		for k, e := range x {
+			out[k] = copyDeep(e, memo)
+		}
+		return out
+	case iface:
+		return iface{t: x.t, v: copyDeep(x.v, memo)}
+	case map[value]value:
+		if x == nil {
+			return x
+		}
+		out := make(map[value]value, len(x))
+		for k, e := range x {
+			out[copyDeep(k, memo)] = copyDeep(e, memo)
+		}
+		return out
+	case *hashmap:
+		if x == nil {
+			return x
+		}
+		out := &hashmap{keyType: x.keyType, table: make(map[int]*entry, len(x.table)), length: x.length}
+		for h, e := range x.table {
+			var head, tail *entry
+			for ; e != nil; e = e.next {
+				ne := &entry{key: copyDeep(e.key, memo).(hashable), value: copyDeep(e.value, memo)}
+				if head == nil {
+					head = ne
+				} else {
+					tail.next = ne
+				}
+				tail = ne
+			}
+			out.table[h] = head
+		}
+		return out
+	case *closure:
+		if x == nil {
+			return x
+		}
+		env := make([]value, len(x.Env))
+		for k, e := range x.Env {
+			env[k] = copyDeep(e, memo)
+		}
+		return &closure{Fn: x.Fn, Env: env}
+	}
+	return v
 }
 
 func (i *interpreter) runInits() {
@@ -181,9 +300,41 @@ func (p *Program) runPath(eng *Engine, fn *ssa.Function) (end PathEnd) {
 			end = PathEnd{"panic", fmt.Sprintf("%T: %v", r, r)}
 		}
 	}()
-	i.runInits()
+	if eng.snap == nil {
+		i.runInits()
+		// remember the cells of this interpreter so pointers into globals can be remapped
+		p.snapMu.Lock()
+		eng.snapCells = map[*ssa.Global]*value{}
+		for g, c := range i.globals {
+			eng.snapCells[g] = c
+		}
+		p.snapMu.Unlock()
+		eng.snap = i.takeSnapshot()
+		// the first path must itself start from a copy (the snapshot stays pristine)
+		i2 := p.newInterp(eng)
+		i2.restoreSnapshotFrom(eng)
+		*i = *i2
+	} else {
+		i.restoreSnapshotFrom(eng)
+	}
 	call(i, nil, token.NoPos, fn, nil)
 	return PathEnd{"return", ""}
+}
+
+// LeadingChoices runs the first path of fn and returns the arities of the leading pure
+// enumerations (nd.Choice calls made before any symbolic branch); used to split a
+// harness into independent tasks.
+func (p *Program) LeadingChoices(eng *Engine, fn *ssa.Function) []int {
+	eng.pc = [][]*smt.Term{nil}
+	p.runPath(eng, fn)
+	var out []int
+	for _, d := range eng.decs {
+		if d.conds != nil {
+			break
+		}
+		out = append(out, d.n)
+	}
+	return out
 }
 
 // Explore runs the DFS over all paths of harness fn.
